@@ -196,7 +196,7 @@ def check_crashes(ck):
 
 def run(ck: Check):
     ck.trusted = TRUST
-    ck.prove(extra_targets=["Corr/Check_svc.v"])
+    ck.prove(extra_targets=["Corr/Check_svc.v", "Conc/ServiceExamples.v"])
     results = collect(ck, ck.n(1000, 20000))
     terms = [case_term(r) for r in results]
     bad = ck.coq_eval("svc", HEADER, terms, "svc_case", "check_svc", shard=200)
